@@ -1051,6 +1051,30 @@ impl<'de> serde::de::Visitor<'de> for DataVisitor<'_> {
     }
 }
 
+impl AnnotationDataSet {
+    /// If `id` is a temporary public identifier (and these are stripped on deserialisation), make room so the next
+    /// inserted data item ends up at the handle the identifier encodes (gaps are preserved, like the JSON reader does).
+    /// Returns true if the identifier is temporary and must not be kept as a public identifier.
+    pub(crate) fn reserve_for_temp_id(&mut self, id: &str) -> Result<bool, StamError> {
+        if !self.config().strip_temp_ids() || !id.starts_with("!D") {
+            return Ok(false);
+        }
+        if let Some(handle) = resolve_temp_id(id) {
+            if self.data.len() > handle {
+                return Err(StamError::DeserializationError(format!(
+                    "unable to resolve temporary public identifier {} for annotation data",
+                    id
+                )));
+            } else if handle > self.data.len() {
+                self.data.resize_with(handle, Default::default);
+            }
+            Ok(true)
+        } else {
+            Ok(false)
+        }
+    }
+}
+
 #[cfg(stam_verif)]
 impl AnnotationDataSet {
     /// Verification hook (read-only): raw slots, id maps and the key-data index of this set.
